@@ -27,6 +27,60 @@ pub struct ExpectCase {
   /// register every third initial expectation through `extend_check_claims` (generic parser only)
   #[serde(default)]
   pub via_extend: bool,
+  /// core-layer payload text: floating-point numbers are written another (equally valid, equal-valued) way:
+  /// 1 one more fraction digit "2.50", 2 exponent form "2.5e0", 3 "2.5E+0", 4 leading-zero exponent "25e-01"
+  #[serde(default)]
+  pub respell: u8,
+}
+
+/// rewrites the floating-point number tokens of a JSON text (outside strings) without changing their value
+pub fn respell_floats(json: &str, how: u8) -> String {
+  let b: Vec<char> = json.chars().collect();
+  let mut out = String::with_capacity(json.len() + 16);
+  let (mut i, mut in_str, mut esc) = (0usize, false, false);
+  while i < b.len() {
+    let c = b[i];
+    if in_str {
+      out.push(c);
+      if esc { esc = false; } else if c == '\\' { esc = true; } else if c == '"' { in_str = false; }
+      i += 1;
+      continue;
+    }
+    if c == '"' {
+      in_str = true;
+      out.push(c);
+      i += 1;
+      continue;
+    }
+    if c == '-' || c.is_ascii_digit() {
+      let start = i;
+      while i < b.len() && (b[i].is_ascii_digit() || matches!(b[i], '-' | '+' | '.' | 'e' | 'E')) {
+        i += 1;
+      }
+      let tok: String = b[start..i].iter().collect();
+      let is_float = tok.contains('.') || tok.contains('e') || tok.contains('E');
+      match (is_float, tok.parse::<f64>()) {
+        (true, Ok(f)) if f.is_finite() => {
+          let plain = !tok.contains('e') && !tok.contains('E');
+          let new = match how % 5 {
+            1 if plain => format!("{tok}0"),
+            2 => format!("{:e}", f),
+            3 => format!("{:e}", f).replace("e-", "E-").replace('e', "E+"),
+            4 if plain => { let digits = tok.split('.').nth(1).map(|d| d.len()).unwrap_or(0); format!("{}e-{:02}", tok.replace('.', ""), digits) }
+            _ => tok.clone(),
+          };
+          // keep only rewrites that still denote the same double
+          let valid_json_same_value = serde_json::from_str::<Value>(&new).ok().and_then(|v| v.as_f64()) == Some(f);
+          out.push_str(if valid_json_same_value { &new } else { &tok });
+        }
+        _ => out.push_str(&tok),
+      }
+      continue;
+    }
+    out.push(c);
+    i += 1;
+  }
+  out
 }
 
 pub struct ExpectedClaims {
@@ -123,7 +177,11 @@ impl Sub for ExpectedClaims {
         }
         b.build(&lk)
       } else {
-        core_build(&lk, &[1u8; 32][..if p == Proto::V2L { 24 } else { 32 }], &pl.to_string(), None, None)
+        let text = if c.respell % 5 != 0 { respell_floats(&pl.to_string(), c.respell) } else { pl.to_string() };
+        if text != pl.to_string() {
+          cl.tag("payload-numbers-respelt");
+        }
+        core_build(&lk, &[1u8; 32][..if p == Proto::V2L { 24 } else { 32 }], &text, None, None)
       };
       match t {
         Ok(t) => tokens.push((t, pl)),
@@ -213,7 +271,7 @@ const KEYS: [&str; 15] = ["iss", "sub", "aud", "jti", "iat", "role", "rol", "Rol
 
 /// the same instant written another way: other offset, `Z` vs `+00:00`, other number of fraction digits; or the same
 /// second with another fraction (a different instant) - all of them other JSON strings than `s`
-fn respell(s: &str, how: u8) -> Option<String> {
+fn respell_time(s: &str, how: u8) -> Option<String> {
   let (secs, nanos) = crate::tgen::parse_rfc3339(s)?;
   let r = |offset_min: i16, digits: u8, zulu: u8| crate::tgen::Rendering { offset_min, digits, sep: 0, zulu };
   let out = match how % 6 {
@@ -295,8 +353,8 @@ fn typed(key: &str, v: &Value, form: u8) -> ClaimSpec {
 
 fn case(proto: Proto, layer: Layer) -> BoxedStrategy<ExpectCase> {
   // base claim set S, expectations derived from it, then per-token perturbations of S
-  (gen::bytes32(), vec((key(), value()), 0..5), vec((any::<u16>(), 0u8..11, value(), any::<u8>()), 0..4), vec((0u8..6, any::<u16>(), value()), 1..=6), any::<bool>(), vec((1u8..6, any::<u16>(), 0u8..11, value(), any::<u8>()), 0..3), any::<bool>())
-    .prop_map(move |(seed, base, exp_rel, perturb, via_builder, late_rel, via_extend)| {
+  (gen::bytes32(), vec((key(), value()), 0..5), vec((any::<u16>(), 0u8..11, value(), any::<u8>()), 0..4), vec((0u8..6, any::<u16>(), value()), 1..=6), any::<bool>(), vec((1u8..6, any::<u16>(), 0u8..11, value(), any::<u8>()), 0..3), any::<bool>(), prop_oneof![3 => Just(0u8), 2 => 1u8..5])
+    .prop_map(move |(seed, base, exp_rel, perturb, via_builder, late_rel, via_extend, respell)| {
       let base_obj: serde_json::Map<String, Value> = base.iter().cloned().collect();
       let base_keys: Vec<String> = base_obj.keys().cloned().collect();
       let mut expect = vec![];
@@ -318,7 +376,7 @@ fn case(proto: Proto, layer: Layer) -> BoxedStrategy<ExpectCase> {
             }
             _ => typed(&k, &json!(0.1 + 0.2), *form),
           },
-          10 => match cur.as_str().and_then(|t| respell(t, *form)) {              // a timestamp written another way
+          10 => match cur.as_str().and_then(|t| respell_time(t, *form)) {              // a timestamp written another way
             Some(t) => typed(&k, &json!(t), *form),
             None => typed(&k, &json!("2030-01-01T00:00:00Z"), *form),
           },
@@ -377,7 +435,7 @@ fn case(proto: Proto, layer: Layer) -> BoxedStrategy<ExpectCase> {
           }
         }
       }
-      ExpectCase { proto, layer, seed, payloads, via_builder, expect, late, via_extend }
+      ExpectCase { proto, layer, seed, payloads, via_builder, expect, late, via_extend, respell }
     })
     .boxed()
 }
